@@ -1,5 +1,6 @@
 import SamplyModel.Proto
 import SamplyModel.Model.BreakpadIndex
+import SamplyModel.Model.BreakpadSpec
 /-!
 Line protocol for C10 (all numbers decimal; `<hex>` lower-case hex, `-` = empty).
 
@@ -406,6 +407,51 @@ def firstSome {α : Type} (f : α → Option String) : List α → Option String
   | [] => none
   | x :: xs => match f x with | some e => some e | none => firstSome f xs
 
+/-! #### the theorem's own specification, evaluated when the text is exactly `BPS.render` of the records -/
+
+def crsOf (raw : List UInt8) : Nat :=
+  let l := if raw.getLast? = some 10 then raw.dropLast else raw
+  (l.reverse.takeWhile (· = 13)).length
+
+def toSpecRec (t : TLine) : Option BPS.Rec :=
+  match t.r with
+  | .info rest => some (.info rest)
+  | .file i n => some (.file i n)
+  | .origin i n => some (.origin i n)
+  | .pub m a p n => some (.pub m a p n)
+  | .func m a sz p n => some (.func m a sz p n)
+  | .line a sz l f => some (.line a sz l f)
+  | .inline d cl cf o (r0 :: rs) => some (.inline d cl cf o r0 rs)
+  | .inline _ _ _ _ [] => none
+  | .stack => some (.stack ((content t.raw).drop 6))
+  | .module .. => none
+  | .junk => none
+
+/-- the abstract file of `BPS`, if every line is a record and the first one a MODULE line -/
+def toSymFile (c : Case) : Option BPS.SymFile :=
+  match c.lines with
+  | [] => none
+  | m :: rest =>
+    match m.r with
+    | .module .. =>
+      match rest.mapM (fun t => (toSpecRec t).map (fun r => (⟨r, crsOf t.raw⟩ : BPS.SLine))) with
+      | none => none
+      | some ls => some ⟨content m.raw, crsOf m.raw, ls, c.text.getLast? = some 10⟩
+    | _ => none
+
+def nodupNat (l : List Nat) : Bool :=
+  match l with
+  | [] => true
+  | a :: t => !t.contains a && nodupNat t
+
+/-- exact comparison with `BPS.readDirectly` (the specification of theorem `C10_reading`) -/
+def checkExact (sf : BPS.SymFile) (looks : List LookOut) : Option String :=
+  firstSome (fun lo =>
+    let expected := showLook "" lo.addr (BPS.readDirectly sf lo.addr)
+    let got := (s!"look {lo.addr} " ++ " ".intercalate lo.res) :: lo.frames.map (fun f => "frame " ++ " ".intercalate f)
+    if expected = got then none
+    else some s!"reading:exact lookup {lo.addr}: BPS.readDirectly gives {expected} but the implementation {got}") looks
+
 def judge (ops impl : List String) : Bool × String :=
   let c := parseCase ops
   let w := impl.map words
@@ -486,6 +532,17 @@ def judge (ops impl : List String) : Bool × String :=
   if looks.map (·.addr) ≠ c.lookups then (false, "reading: lookup lines do not match the lookup ops") else
   match firstSome (checkLookup syms files origins) looks with
   | some e => (false, e)
-  | none => (true, "ok")
+  | none =>
+    -- when the text is literally `BPS.render` of the records and the keys are distinct, the answers must
+    -- be exactly those of `BPS.readDirectly`, the specification of theorem C10_reading
+    match toSymFile c with
+    | none => (true, "ok")
+    | some sf =>
+      if BPS.render sf = c.text && nodupNat (BPS.symAddrs sf.lines) && nodupNat (BPS.fileIdxs sf.lines)
+          && nodupNat (BPS.originIdxs sf.lines) then
+        match checkExact sf looks with
+        | some e => (false, e)
+        | none => (true, "ok exact")
+      else (true, "ok")
 
 end C10
